@@ -134,8 +134,24 @@ func (rt *runtime) tryCatchEvaluate(inner func() Value) (tryValue Value, isExcep
 				isException = true
 				tryValue = caught
 			default:
+				// A foreign panic. A value with a JavaScript counterpart (the
+				// string a host function panics with, for example) can be caught
+				// by the script. Anything else, such as the error an interrupt
+				// function panics with to halt the script, is not a JavaScript
+				// exception: it propagates unchanged and try/catch/finally do
+				// not get to see it.
+				converted := false
+				func() {
+					defer func() {
+						_ = recover() //nolint:errcheck
+					}()
+					tryValue = toValue(caught)
+					converted = true
+				}()
+				if !converted {
+					panic(caught)
+				}
 				isException = true
-				tryValue = toValue(caught)
 			}
 		}
 	}()
